@@ -1,0 +1,14 @@
+//go:build verif
+
+package api
+
+// VerifTapHook, when set, observes the multiplexer at the points where
+// VerifTap is called (verification harness only, build tag "verif").
+var VerifTapHook func(stage, app string, ctx *Context, extra any)
+
+// VerifTap notifies the installed verification observer, if any.
+func VerifTap(stage, app string, ctx *Context, extra any) {
+	if h := VerifTapHook; h != nil {
+		h(stage, app, ctx, extra)
+	}
+}
